@@ -30,7 +30,7 @@ RULE = (
     "all (mass configuration in {equal, ratio 2, ratio 1e3, generic, each swapped; exactly"
     " representable and seed-shifted} x binding in {symbols, numbers, same symbol twice} x"
     " assumptions in {plain, real/positive} x cse in {F,T}); per configuration the 7"
-    " expressions x 2 dtypes x the s lattice (every region and boundary, thr(1+-eps) for"
+    " expressions x 2 dtypes (+ the pure-Python 'math' lambdify backend, point by point) x the s lattice (every region and boundary, thr(1+-eps) for"
     " eps in 1e-3,1e-6,1e-9, seed-shifted interior points); non-trivial = a comparison"
     " that was really made on finite numbers; distinct = (identity/class, region, mass"
     " configuration, binding, cse, dtype)"
@@ -187,7 +187,8 @@ def build_functions(case):
     out = {}
     for name in CLASSES:
         expr = getattr(ps, name)(s, a, b).doit()
-        out[name] = (expr, sp.lambdify(args, expr, "numpy", cse=case["cse"]))
+        out[name] = (expr, sp.lambdify(args, expr, "numpy", cse=case["cse"]),
+                     sp.lambdify(args, expr, "math", cse=case["cse"]))
     q2_swapped = None
     if case["binding"] == "numbers":
         e = ps.BreakupMomentumSquared(s, b, a).doit()
@@ -353,7 +354,7 @@ def eval_case(case):  # noqa: C901, PLR0912, PLR0915
     key_tail = (case["cfg"], case["binding"], case["cse"])
 
     values = {}  # (class, dtype) -> complex array
-    for name, (_, f) in funcs.items():
+    for name, (_, f, _) in funcs.items():
         for dtype in ("real", "complex"):
             values[name, dtype] = call(f, svals, vals, float if dtype == "real" else complex)
 
@@ -593,6 +594,26 @@ def eval_case(case):  # noqa: C901, PLR0912, PLR0915
             rec.compare("O7:lambdify(complex)=evalf:" + name, regions[i], "complex", name, s,
                         val(name, "complex", i), ev,
                         uses_cm=name in USES_CM or name == "EqualMassPhaseSpaceFactor")
+
+    # ---- O8 the pure-Python ("math") lambdify backend, called event by event with Python
+    #      floats, gives the value of the NumPy backend wherever both are defined
+    for name in CLASSES:
+        fm = funcs[name][2]
+        for i, s in enumerate(svals):
+            if not real_domain(name, s, m1, m2) or (ill[i] and name in USES_CM):
+                continue
+            want = val(name, "real", i)
+            if _isnan(want) or math.isinf(abs(want)):
+                continue  # in-domain NaN is reported by O6
+            try:
+                got = complex(fm(float(s), *vals))
+            except (ValueError, ZeroDivisionError, OverflowError, TypeError) as exc:
+                # math.sqrt / math.log raise where numpy returns nan / inf, and math.log
+                # does not take the complex numbers that ComplexSqrt hands it
+                rec.counters[f"math_backend_raised_{type(exc).__name__}"] += 1
+                continue
+            rec.compare("O8:lambdify(math)=lambdify(numpy):" + name, regions[i], "math", name, s,
+                        got, want, uses_cm=name in USES_CM or name == "EqualMassPhaseSpaceFactor")
 
     i_show, j_show = idx["above:1.5"], idx["between:0.5"]
     sample = {
